@@ -2135,6 +2135,22 @@ def _r10_mut_ref_target(du, operand, depth=6):
     return None
 
 
+def _r10_wrapper(rv):
+    """`Some(x)` / `Ok(x)` -> [x]; `None` -> [] (no text at all); anything else -> None."""
+    if rv.get('k') != 'agg' or rv.get('ak') != 'adt' or rv.get('adt') not in ('core::option::Option', 'core::result::Result'):
+        return None
+    ops = rv.get('ops') or []
+    if rv.get('variant') in ('Some', 'Ok') and len(ops) == 1:
+        return ops
+    if rv.get('variant') == 'None' and not ops:
+        return []
+    return None
+
+
+_R10_ADAPTERS = re.compile(r'^core::(?:option::Option::<T>|result::Result::<T, E>)::(is_some_and|is_none_or|is_ok_and|map|and_then|map_or|'
+                           r'map_or_else|filter|inspect|is_some_and)$')
+
+
 def _r10_sources(F, body, du, operand, depth=40, hops=2, seen=None):
     """Where the text in `operand` comes from: leaves ('literal', what) | ('other', what, node) | ('unknown', what, node)."""
     seen = set() if seen is None else seen
@@ -2177,6 +2193,9 @@ def _r10_sources(F, body, du, operand, depth=40, hops=2, seen=None):
                 elif node['k'] == 'assign' and node['rv']['k'] in ('use', 'ref') and not node['lhs'].get('p'):
                     src = node['rv']['o'] if node['rv']['k'] == 'use' else {'cp': node['rv']['pl']}
                     out.extend(_r10_sources(F, body, du, src, depth, hops, seen))
+                elif node['k'] == 'assign' and _r10_wrapper(node['rv']) is not None and not node['lhs'].get('p'):
+                    for o in _r10_wrapper(node['rv']):
+                        out.extend(_r10_sources(F, body, du, o, depth, hops, seen))
                 else:
                     out.append(('unknown', 'a value assembled in place', node))
             return out
@@ -2196,6 +2215,11 @@ def _r10_sources(F, body, du, operand, depth=40, hops=2, seen=None):
             p = Q.operand_place(rv['o'])
             if p is None:
                 return [('unknown', 'a cast', node)]
+        elif _r10_wrapper(rv) is not None:
+            out = []
+            for o in _r10_wrapper(rv):
+                out.extend(_r10_sources(F, body, du, o, depth, hops, seen))
+            return out
         else:
             return [('unknown', 'a value assembled in place (%s)' % rv['k'], node)]
     return [('unknown', 'a chain too long to follow', None)]
@@ -2218,6 +2242,15 @@ def _r10_call(F, body, du, t, depth, hops, seen):
     name = t['f'].get('decl') or t['f'].get('def') or ''
     if re.search(r'(^|::)(Iterator|IntoIterator|FromIterator)::\w+$|^core::slice::<impl \[T\]>::iter$|^core::iter::', name) and t['a']:
         return _r10_sources(F, body, du, t['a'][0], depth, hops, seen)
+    if Q.callee_is(t, Q.FROM_RESIDUAL):
+        return []                                  # `?` handing on an absent value: no text
+    d = t['f'].get('def') or ''
+    cb = F.bodies.get(d)
+    if cb is not None and d.startswith('yash_syntax::') and not F.is_async(d) and hops > 0 and (d, 0) not in seen:
+        # a helper of the crate that returns the text: what it returns
+        inner = _r10_sources(F, cb, Q.DefUse(cb), {'cp': {'l': 0}}, 40, hops - 1, seen)
+        if inner and all(lf[0] == 'literal' for lf in inner):
+            return inner
     return [('other', 'the result of %s' % H.short(t['f'].get('def') or t['f'].get('decl') or '?'), t)]
 
 
@@ -2230,6 +2263,14 @@ def _r10_from_caller(F, body, p, hops, seen):
         # captured variable `_1.k` of the coroutine / closure built in the parent body
         up = [e for e in p.get('p') or [] if isinstance(e, dict) and 'f' in e][:1]
         parent = F.bodies.get(body.fn.rsplit('::', 1)[0])
+        if parent is not None and p['l'] == 2 and not body.d.get('coroutine'):
+            # the first parameter of a closure handed to `opt.is_some_and(..)` / `.map(..)` / ..: the payload of the receiver
+            pdu = Q.DefUse(parent)
+            for _, t in parent.calls():
+                if any(_R10_ADAPTERS.match(n) for n in Q.callee_names(t)) and \
+                        any(o['k'] == 'agg' and o['rv'].get('def') == body.fn for o in (pdu.origin(a) for a in t['a'][1:])):
+                    return _r10_sources(F, parent, pdu, t['a'][0], 40, hops, seen)
+            return [('unknown', 'a parameter of the closure %s' % body.fn, None)]
         if p['l'] != 1 or not up or parent is None:
             return [('unknown', 'a parameter of the closure %s' % body.fn, None)]
         k = int(up[0]['f'])
